@@ -4,7 +4,7 @@
 B=${1:-240}
 cd "$(dirname "$0")/.."
 mkdir -p /root/r10/thorough_evidence
-for id in C08 C01 C03 C06 C09 C10 C12 C14 C18 C04 C17 C02 C07 C11 C20 C19 C15 C05 C13 C16; do
+for id in C06 C09 C10 C12 C14 C18 C04 C17 C02 C07 C11 C20 C19 C15 C05 C13 C16; do
   start=$(date +%s)
   out=$(VERIF_BUDGET_S=$B ./run.sh $id thorough 2>&1); rc=$?
   echo "$out" | grep -E "^(VIOLATION|NOTE|  signature)" | head -10
